@@ -73,7 +73,7 @@ package unixsocket
 //@   callsite WriteMsgUnix: assert @C19 m.Cred != nil ==> B.item[B.n - 1] == enc_cred(m.Cred)
 //@   callsite WriteMsgUnix: assert @C19 b == old(b)
 
-//@ func pkg/unixsocket.newSocket
+//@ func pkg/unixsocket.newSocket props C19
 //@   arith int
 //@   assigns nothing
 //@   ensures result != nil && fresh(result) && result.UnixConn == conn && len(result.recvBuff) == 4096 && len(result.sendBuff) == 4096
